@@ -384,26 +384,32 @@ def Dx10Header.fromRaw (perm : Bool) (height width : Nat) (depth : Option Nat) (
         .ok { height, width, depth, mipmapCount, dxgiFormat := d.dxgiFormat,
               resourceDimension := dim, miscFlag := d.miscFlag, arraySize, alphaMode := alpha }
 
+/-- `depth` of `Header::from_raw` -/
+def RawHeader.parsedDepth (raw : RawHeader) : Option Nat :=
+  if bitSet raw.flags DDSD_DEPTH then some raw.depth else none
+
+/-- `mipmap_count` of `Header::from_raw` -/
+def RawHeader.parsedMips (raw : RawHeader) : Nat :=
+  let mip0 := if bitSet raw.flags DDSD_MIPMAPCOUNT || bitSet raw.caps CAPS_COMPLEX ||
+      bitSet raw.caps CAPS_MIPMAP then raw.mipmapCount else 1
+  if mip0 = 0 then 1 else mip0
+
 /-- `Header::from_raw` up to (not including) `fix_based_on_file_len` -/
 def Header.fromRawNoFix (perm : Bool) (raw : RawHeader) : Except HeaderErr Header :=
   if raw.size ≠ RAW_HEADER_SIZE ∧ ¬ (perm = true ∧ raw.size = 24) then
     .error (.invalidHeaderSize raw.size)
   else
-    let depth := if bitSet raw.flags DDSD_DEPTH then some raw.depth else none
-    let mip0 := if bitSet raw.flags DDSD_MIPMAPCOUNT || bitSet raw.caps CAPS_COMPLEX ||
-        bitSet raw.caps CAPS_MIPMAP then raw.mipmapCount else 1
-    let mipmapCount := if mip0 = 0 then 1 else mip0
     match Dx9PixelFormat.fromRaw perm raw.pixelFormat with
     | .error e => .error e
     | .ok pixelFormat =>
       match raw.dx10 with
       | some d =>
-        match Dx10Header.fromRaw perm raw.height raw.width depth mipmapCount d with
+        match Dx10Header.fromRaw perm raw.height raw.width raw.parsedDepth raw.parsedMips d with
         | .error e => .error e
         | .ok x => .ok (.dx10 x)
       | none =>
-        .ok (.dx9 { height := raw.height, width := raw.width, depth, mipmapCount,
-                    caps2 := raw.caps2, pixelFormat })
+        .ok (.dx9 { height := raw.height, width := raw.width, depth := raw.parsedDepth,
+                    mipmapCount := raw.parsedMips, caps2 := raw.caps2, pixelFormat })
 
 /-! ### `fix_based_on_file_len` -/
 
